@@ -513,6 +513,8 @@ def break_state(rng, st, stats):
     """malformed stream: one violation of well-formedness"""
     w = rng.choice(sorted(st))
     i = st[w]
+    if not i["nodes"]:
+        i["nodes"][rng.choice(NODES)] = rng.choice(NTYPES)
     k = rng.choice(["dangling_edge", "descend_nowhere", "orphan_instance", "bad_plane", "att_no_owner", "two_parents"])
     stats["malformed:" + k] = stats.get("malformed:" + k, 0) + 1
     if k == "dangling_edge":
